@@ -56,6 +56,9 @@ def run_query(name, t, cons, goal, bound, timeout=300, twin_goal=True, cross=Fal
     if res.verdict == "unsat":
         tw = solve.check(name + "-twin", cons + ([twin_goal] if twin_goal is not True else []), timeout_s=timeout)
         twin = tw.verdict
+        if tw.verdict == "sat":
+            extra = dict(extra or {})
+            extra["instance"] = solve.text_of_model(tw.model, t)[0]
         if tw.verdict != "sat":
             res.verdict = "unknown"
             res.note = "vacuity twin is %s" % tw.verdict
@@ -200,7 +203,9 @@ def c10_templates(src, structured, quick=True, timeout=300):
     names = ["info", "log::info"]
     shapes = []
     gapsets = [{}, {"g0": 1, "g1": 1, "g2": 1}] if quick else [{}, {"g0": 1}, {"g1": 1}, {"g2": 2}, {"g0": 1, "g1": 1, "g2": 1, "g3": 2, "g4": 2, "g5": 2}]
-    kvsets = [[], ["k = 1"], ["k", "l:? = x"]] if quick else [[], ["k = 1"], ["k"], ["k:% = v", "l"], ["a = \"x;y\"", "b:debug = c"], ["a", "b", "c = 3"]]
+    kvsets = ([[], ["k = 1"], ["k", "l:? = x"], ["e:?", "p:%"]] if quick else
+              [[], ["k = 1"], ["k"], ["k:% = v", "l"], ["a = \"x;y\"", "b:debug = c"], ["a", "b", "c = 3"], ["e:?"],
+               ["d:debug", "s:display", "x:err"], ["v:sval = w", "j:serde"]])
     targets = [None, 2] if quick else [None, 0, 3]
     for name in names:
         for gaps in gapsets:
